@@ -30,7 +30,7 @@ m = {"version": 1, "setup_cmd": "./setup.sh",
      "engines": [{"name": "bfvc", "path": "tool", "serves_properties": [c['property_id'] for c in checks],
                   "kind_free_text": "own VC generator over go/ssa of /repo's working tree; contracts in //go:build verif comment files; z3 5.1 / z3 4.8 / cvc5 portfolio; bounded counterexample search + go test -overlay replay"}],
      "checks": checks,
-     "notes": "Contract-based deductive verification of the real Go functions; see DESIGN.md. Exit 2 (no VIOLATION line) = tool error / undecided (e.g. a contract can no longer be bound).",
+     "notes": "Contract-based deductive verification of the real Go functions; see DESIGN.md. A function whose contract can no longer be bound to the code (anchor removed, types changed) or that left the modelled subset is reported as a failed obligation of kind bind (VIOLATION ... no-failing-input-found). Exit 2 (no VIOLATION line) = the tree does not load/compile or a contract file has a syntax error.",
      "not_applicable": na}
 json.dump(m, open(os.path.join(root, 'MANIFEST.json'), 'w'), indent=1)
 print(len(checks), 'claimed;', len(na), 'not claimed')
